@@ -257,3 +257,6 @@ PROPS['C03'] = dict(lean=['Mkdb.Props.C02'], facts=STORE_FACTS, runs=[dict(cmd='
     sig_filter=r'db:(image-.*|panic:.*|hang:.*)', claim='pending', note='pending', rule='')
 PROPS['C04'] = dict(lean=['Mkdb.Props.C02'], facts=STORE_FACTS, runs=[dict(cmd='db', proto='db', args=['c04'], timeout=3000)],
     sig_filter=r'db:(fimage-.*)', claim='pending', note='pending', rule='')
+
+PROPS['C16'] = dict(lean=['Mkdb.Props.C02'], facts=STORE_FACTS + ['lru.capacity', 'skeleton.storage.LRUCache.*'], runs=[dict(cmd='db', proto='db', args=['c16'])],
+    sig_filter=r'db:(cache-size-dependent|contents-differ:live|panic:live|hang:live|select-failed:live)', claim='pending', note='pending', rule='', shrink=False)
